@@ -166,7 +166,10 @@ where
             match v {
                 Int8::Value(n) => Ok(n),
                 Int8::Missing => Ok(i8::from(v)),
-                _ => todo!("unhandled i16 array value: {:?}", v),
+                _ => Err(io::Error::new(
+                    io::ErrorKind::InvalidInput,
+                    format!("invalid info field array value: {v:?}"),
+                )),
             }
         })
         .collect::<io::Result<_>>()?;
@@ -194,7 +197,10 @@ where
             match v {
                 Int16::Value(n) => Ok(n),
                 Int16::Missing => Ok(i16::from(v)),
-                _ => todo!("unhandled i16 array value: {:?}", v),
+                _ => Err(io::Error::new(
+                    io::ErrorKind::InvalidInput,
+                    format!("invalid info field array value: {v:?}"),
+                )),
             }
         })
         .collect::<io::Result<_>>()?;
@@ -220,7 +226,10 @@ where
             match v {
                 Int32::Value(n) => Ok(n),
                 Int32::Missing => Ok(i32::from(v)),
-                _ => todo!("unhandled i32 array value: {:?}", v),
+                _ => Err(io::Error::new(
+                    io::ErrorKind::InvalidInput,
+                    format!("invalid info field array value: {v:?}"),
+                )),
             }
         })
         .collect::<io::Result<_>>()?;
@@ -246,7 +255,10 @@ where
             match v {
                 Float::Value(n) => Ok(n),
                 Float::Missing => Ok(f32::from(v)),
-                _ => todo!("unhandled f32 array value: {:?}", v),
+                _ => Err(io::Error::new(
+                    io::ErrorKind::InvalidInput,
+                    format!("invalid info field array value: {v:?}"),
+                )),
             }
         })
         .collect::<io::Result<_>>()?;
